@@ -725,6 +725,8 @@ func ruleLexMode(c *Ctx) {
 			c.check(len(missing) == 0, name+"|"+run.label+"-terminators", c.pos(fn.Pos()), name, fmt.Sprintf("a %s run stops at %q, which covers every token that may follow it", run.label, run.excl), fmt.Sprintf("a %s run (terminators %q) does not stop at %v: the following token or comment is swallowed into the %s text", run.label, run.excl, missing, run.label))
 		}
 	}
+	// the digit class: a NUMBER starts and continues with ASCII 0-9 only (Unicode digits are symbol characters)
+	c.checkDigitClass()
 	// setters store their argument
 	for _, s := range []struct{ fn, field string }{{"LexScanner.SetExpectSymbol", "expectSymbol"}, {"LexScanner.SetExpectMetadata", "expectMetadata"}} {
 		sf := c.fn("input/ast", s.fn)
@@ -1199,11 +1201,18 @@ func ruleConvOrder(c *Ctx) {
 		allInstrs(f, func(in ssa.Instruction) {
 			if st, ok := in.(*ssa.Store); ok {
 				if n, _, ok := fieldName(st.Addr); ok && n == "scale" && st.Val == ssa.Value(f.Params[1]) {
-					okSet = true
+					// on every path: no return that is not preceded by the store (a `same signature, keep the old scale` shortcut loses the new tonic)
+					all := true
+					for _, r := range returnsOf(f) {
+						if !dominatesInstr(st, r) {
+							all = false
+						}
+					}
+					okSet = all
 				}
 			}
 		})
-		c.check(okSet && f.Signature.Recv() != nil, fname(f), c.pos(f.Pos()), fname(f), "stores the new scale in the converter", "ChangeScale no longer stores the scale in the converter it is called on")
+		c.check(okSet && f.Signature.Recv() != nil, fname(f), c.pos(f.Pos()), fname(f), "stores the new scale in the converter on every path", "ChangeScale does not store the scale it is given in the converter it is called on, on every path (a conditional store keeps the old tonic when, say, only the mode or the relative key changes)")
 		// pointer receiver, and the AST converter holds the pointer
 		_, isPtr := f.Signature.Recv().Type().(*types.Pointer)
 		c.check(isPtr, fname(f)+"|receiver", c.pos(f.Pos()), fname(f), "pointer receiver: the change persists", "ChangeScale has a value receiver: the new scale is stored in a copy and the next chord is still read in the old key")
@@ -1296,4 +1305,66 @@ func callsInBlocks(b *ssa.BasicBlock) []ssa.CallInstruction {
 	}
 	walk(b, 0)
 	return out
+}
+
+
+// checkDigitClass folds LexScanner.scanDigits with the reader's Peek() bound to probe runes: it must report a number
+// exactly for ASCII '0'..'9'; every predicate it hands to the reader for continuing the run must be that class too.
+func (c *Ctx) checkDigitClass() {
+	fn := c.fn("input/ast", "LexScanner.scanDigits")
+	if fn == nil {
+		c.missing("input/ast.LexScanner.scanDigits")
+		return
+	}
+	c.site(1)
+	key := fname(fn) + "|ascii-digits"
+	probes := []rune{'/', '0', '1', '5', '9', ':', 'a', 'Z', '_', 0x7f, 0x80, 0xb2, 0x0660, 0x0669, 0x0966, 0xff10, 0xff19, 0x1d7ce}
+	want := func(r rune) bool { return r >= '0' && r <= '9' }
+	preds := map[*ssa.Function]bool{}
+	for _, r := range probes {
+		f := c.newFolder()
+		consumed := false
+		f.invoke = func(call *ssa.Call, args []fval) (fval, bool) {
+			switch call.Call.Method.Name() {
+			case "Peek":
+				if !consumed {
+					return fval{k: constant.MakeInt64(int64(r)), t: types.Typ[types.Rune]}, true
+				}
+			default:
+				consumed = true
+				for _, a := range args {
+					if a.fn != nil {
+						preds[unbound(a.fn)] = true
+					}
+				}
+			}
+			return top, false
+		}
+		res, err := f.foldCall(fn, []fval{top, top})
+		if err != nil || res.k == nil || res.k.Kind() != constant.Bool {
+			c.undec(key, c.pos(fn.Pos()), fname(fn), fmt.Sprintf("scanDigits does not fold for first rune %q: %v", r, err))
+			return
+		}
+		if got := constant.BoolVal(res.k); got != want(r) {
+			c.bad(key, c.pos(fn.Pos()), fname(fn), fmt.Sprintf("a NUMBER token starts at rune %q = %v, want %v: the digit class is no longer ASCII 0-9, so texts with other Unicode digits are tokenised differently from the documented grammar", r, got, want(r)))
+			return
+		}
+	}
+	for p := range preds {
+		for _, r := range probes {
+			res, err := c.newFolder().foldCall(p, []fval{top, {k: constant.MakeInt64(int64(r)), t: types.Typ[types.Rune]}})
+			if len(p.Params) == 1 {
+				res, err = c.newFolder().foldCall(p, []fval{{k: constant.MakeInt64(int64(r)), t: types.Typ[types.Rune]}})
+			}
+			if err != nil || res.k == nil || res.k.Kind() != constant.Bool {
+				c.undec(key, c.pos(p.Pos()), fname(p), fmt.Sprintf("the run predicate %s does not fold for rune %q: %v", fname(p), r, err))
+				return
+			}
+			if got := constant.BoolVal(res.k); got != want(r) {
+				c.bad(key, c.pos(p.Pos()), fname(p), fmt.Sprintf("a NUMBER token continues over rune %q = %v, want %v: the digit class is no longer ASCII 0-9", r, got, want(r)))
+				return
+			}
+		}
+	}
+	c.ok(key, c.pos(fn.Pos()), fname(fn), fmt.Sprintf("a number starts and continues exactly on ASCII 0-9 (%d probe runes incl. other Unicode digits, %d run predicate(s))", len(probes), len(preds)))
 }
